@@ -162,7 +162,9 @@ fn run_one_inner(w: &Value, prefix: &[String]) -> Exec {
     let exec = rt.block_on(async {
         let mut divergence = None;
         // ---- setup (unarmed)
-        let db = Arc::new(Database::new_on_disk(disk_opts(&dir, &opts)).await);
+        // ("engine": "mem": the memory engine — no compactor, nothing to reopen; the gates are those of Database::run)
+        let in_memory = w.get("engine").and_then(|v| v.as_str()) == Some("mem");
+        let db = Arc::new(if in_memory { Database::new_in_memory() } else { Database::new_on_disk(disk_opts(&dir, &opts)).await });
         let mut setup_res = vec![];
         for s in w["setup"].as_array().unwrap() {
             setup_res.push(run_stmt(&db, s.as_str().unwrap()).await);
@@ -335,7 +337,7 @@ fn run_one_inner(w: &Value, prefix: &[String]) -> Exec {
         tokio::task::yield_now().await;
         let mut reopen = BTreeMap::new();
         let mut reopen_ok = json!("ok");
-        let do_reopen = w.get("reopen").and_then(|v| v.as_bool()).unwrap_or(true);
+        let do_reopen = w.get("reopen").and_then(|v| v.as_bool()).unwrap_or(true) && !in_memory;
         if do_reopen { match std::panic::AssertUnwindSafe(Database::new_on_disk(disk_opts(&dir, &opts))).catch_unwind().await {
             Ok(db2) => {
                 for t in &tables {
